@@ -3589,8 +3589,8 @@ class Association(threading.Thread):
 
         # Run corresponding Service Class in SCP mode
         try:
-            # Clear out any C-CANCEL requests received beforehand
-            self.dimse.cancel_req = {}
+            # C-CANCEL requests received before the request have been cleared
+            #   by the DIMSE provider when it received the request
             # In case the SCP calls one of the send_* methods
             self._is_paused = True
             service_class.SCP(msg, context)
